@@ -214,16 +214,19 @@ def report():
     rs = [json.loads(l) for l in open(f"{OUT}/results.jsonl")]
     by = {}
     for r in rs:
+        if r["status"] == "survived" and r.get("checks") and all(c["exit"] == 2 for c in r["checks"].values()) and r["group"] != "ffi":
+            # the harness did not build: the line belongs to the hook code behind the feature guard
+            r["status"] = "hook-code"
         g = by.setdefault(r["group"], {})
         s = r["status"]
         key = "killed by a check" if s.startswith("killed-by-C") else s
         g[key] = g.get(key, 0) + 1
-    print("| group | mutants | do not compile | killed by existing tests | reach the checks | killed by a check | survived |")
+    print("| group | mutants | do not compile (or hook code) | killed by existing tests | reach the checks | killed by a check | survived |")
     print("|---|---|---|---|---|---|---|")
     for g, d in by.items():
         n = sum(d.values())
         reach = d.get("killed by a check", 0) + d.get("survived", 0)
-        print(f"| {g} | {n} | {d.get('does-not-compile', 0)} | {d.get('killed-by-existing-tests', 0)} | {reach} | {d.get('killed by a check', 0)} | {d.get('survived', 0)} |")
+        print(f"| {g} | {n} | {d.get('does-not-compile', 0) + d.get('hook-code', 0)} | {d.get('killed-by-existing-tests', 0)} | {reach} | {d.get('killed by a check', 0)} | {d.get('survived', 0)} |")
     print()
     for r in rs:
         if r["status"] == "survived":
